@@ -373,6 +373,14 @@ class DocGen:
             e = Entry("plain", [lname], value=self.value())
             self.decorate(e, first=not out)
             out.append(e)
+        if self.r.random() < 0.12:
+            # dotted bindings that share a root, as in a set: `l_fam.x = 1; l_fam.y = 2;`
+            self.n += 1
+            root = f"l_fam{self.n}"
+            for lf in self.names(self.r.choice([2, 2, 3])):
+                e = Entry("attrpath", [root, lf.replace("-", "_").replace("'", "")], value=self.value())
+                self.decorate(e, first=not out)
+                out.append(e)
         return out
 
     def doc(self, *, wrappers: str | None = None, layers: int | None = None) -> Doc:
